@@ -233,6 +233,13 @@ Qed.
 Lemma filter_cons_In {A} (f : A -> bool) l x : In x l -> f x = true -> filter f l <> [].
 Proof. intros Hi Hf E. assert (H : In x (filter f l)) by (apply filter_In; auto). rewrite E in H. exact H. Qed.
 
+Lemma del_tasks_keys c ks n : flat_map tkeys (del_tasks c ks n) = ks.
+Proof.
+  unfold del_tasks. destruct (ccluster c && (1 <? Z.of_nat (length ks))).
+  - induction ks as [|k ks IH]; cbn; [reflexivity|]. rewrite IH. reflexivity.
+  - cbn. apply app_nil_r.
+Qed.
+
 Lemma del_on_node_hit c n keys s k :
   In k keys -> node_of c k = n ->
   let s' := del_on_node c n keys s in
@@ -245,7 +252,7 @@ Proof.
   destruct (filter (fun k0 => node_of c k0 =? n) keys) as [|k0 ks] eqn:F; [contradiction|].
   destruct (node_down s n); split; intro H; try discriminate.
   - unfold pending_keys. sproj. rewrite flat_map_app. apply in_or_app. right.
-    cbn [flat_map tkeys]. rewrite app_nil_r. exact Hk.
+    rewrite del_tasks_keys. exact Hk.
   - sproj. apply find_remove_all_in. exact Hk.
 Qed.
 
